@@ -402,6 +402,10 @@ PClose(s) ==
   \* closing stdin inside a call before all input was handed over truncates the child's input (unless the child
   \* has already closed its end: then nothing more could have been delivered)
   /\ viol' = viol \cup V(s = "in" /\ inCall /\ cOpen["in"] => inAcc = input, "C02_in_early_close")
+                   \* C03, last sentence: a read cut short by the size limit leaves the rest of the input to later reads --
+                   \* it does not close the child's standard input on what has not been handed over yet
+                   \cup V(s = "in" /\ inCall /\ limit >= 0 /\ cOpen["in"] => inAcc = input,
+                          "C03_input_dropped_by_limited_read")
   /\ UNCHANGED <<piped, cap, k, short, input, flood, buf, cOpen, cPend, cAlive, now, inCall, limit, dl, sawEof,
                  written, delivered, inAcc, cRecv, cEof, pwDone, after, sanity>>
 
